@@ -6,42 +6,106 @@ sys.path.insert(0, ROOT)
 from vlib import props
 
 HOOK_COMMITS = ["5faa070"]
-FIX_COMMITS = ["5ce47be", "5913455", "371624d"]
-LEVEL_TEXT = {
+# (level text, DESIGN section, level note, technique)
+T = {
+ "C01": ("Structured attacks derived from the abstract picture syntax (truncation at every byte, bit flips, forbidden codes, "
+         "size changes, zero sizes, extreme levels) and random bytes, across histories and all four option combinations, are "
+         "run in the real decoder inside isolated workers; TLC validates every call of every history against the decoder "
+         "model: the outcome must be a return value (ok or err) and the observable state must be consistent with it.",
+         "5 C01", "Exploration-strength evidence inside the model-checking framework: inputs are unbounded, the explored set is finite. Memory safety proper is delegated to safe Rust (no unsafe in the three crates); arithmetic overflow is observed because the harness builds with overflow checks.",
+         "TLA+ decoder model (TraceDecoder/Decoder.tla) + TLC trace validation of fault-injected histories; outcome class checked for every call"),
+ "C02": ("TLC encodes abstract intra pictures (Picture.tla) into bytes, the real decoder decodes them, and TLC recomputes "
+         "every sample from the specification (zig-zag placement, dequantisation, two-limb fixed-point ideal IDCT with an "
+         "explicit error interval, clipping) and compares planes, plane sizes, header and reader position.", "5 C02",
+         "Trusted: TLC; the ideal IDCT is evaluated in 2^-12 units with tolerance eps(F) = 2^-9 + 2^-19*sum|F| (+1 allowed only inside that band); bounded picture sizes and counts.",
+         "TLA+ spec of the picture layer as encoder and oracle; TLC-generated bitstreams replayed into the decoder; staged TLC trace validation"),
+ "C03": ("Histories I,P,P,... : TLC recomputes vector prediction (median of three candidates with the border rules), the "
+         "wrap into [-16,15.5], chroma vectors, bilinear half-sample prediction with edge clamp, residuals, not-coded and "
+         "post-truncation macroblocks from the specification and compares every sample of every predicted picture with "
+         "what the real decoder produced; references are adopted from the decoder so tolerated +-1 cannot snowball.", "5 C03",
+         "Trusted: TLC; references are the decoder's own previous output (validated when it was produced).",
+         "TLA+ spec (Recon.tla, Picture.tla) + TLC trace validation of predicted pictures over adopted references"),
+ "C04": ("Two-layer TLA+ model (requirement: last/reference are pictures; implementation-shaped: TR-keyed store): TLC checks "
+         "RefIsLastNonDisposable for all histories over {I,P,D,Reject,Cleanup} and all TR assignments up to a bound, exports "
+         "every model history, and validates the real decoder's planes, header and hook state after every call of those "
+         "histories (and of long random ones with arbitrary 8-bit TRs) against the requirement layer.", "5 C04",
+         "Trusted: TLC; bounded history length (model 6/9, replayed 3/4 exhaustively, 12..40 sampled).",
+         "TLA+ refinement model checked with TLC; TLC-exported behaviours replayed; pixel-level trace validation"),
+ "C05": ("Failing inputs at every depth (header, macroblock header, vectors, block data, missing reference, missing data) "
+         "are injected into histories; TLC validates that after every error the planes, header, reference state and reader "
+         "probe are unchanged, that valid continuations decode as if the failure never happened, and that split delivery "
+         "(every byte split point) ends in the state of single delivery.", "5 C05",
+         "Trusted: TLC; split points at byte granularity; carried-over options are observed through the hook accessor.",
+         "TLA+ decoder model + TLC trace validation of fault-injected histories and of split deliveries"),
+ "C06": ("PictureHeader.tla defines header bits and expected fields per clause 5.1 / the Sorenson layout; TLC encodes "
+         "headers over exhaustive per-field domains and random cross products, the real parser parses them, and TLC compares "
+         "every public field and the bits consumed; malformed markers must be rejected.", "5 C06",
+         "Trusted: TLC; cross-field combinations are sampled (pairwise/random), per-field domains are exhaustive.",
+         "TLA+ header specification as encoder and oracle; TLC trace validation of parser::decode_picture"),
  "C07": ("TLC checks the colour formula's lemmas (within 1 of the real-valued formula, monotone, alpha) for all 2^24 "
          "triples on Yuv.tla, and validates the real converter's output against Yuv!Pixel for all 65536 chroma pairs x "
-         "32 luma values (quick) / all 2^24 triples (thorough, exhaustive).", "5 C07"),
+         "32 luma values (quick) / all 2^24 triples (thorough, exhaustive).", "5 C07",
+         "Trusted: TLC's evaluator; the driver's packing of RGBA into one integer. Inputs are 4x1 pictures (vector body).",
+         "TLA+ spec (Yuv.tla) model-checked exhaustively with TLC + trace validation of recorded conversions"),
  "C08": ("TLC recomputes every pixel of every picture size in a dense range from Yuv!Convert (pairing definition model-"
-         "checked in MCYuvPairing) and compares with the bytes returned by the real converter.", "5 C08"),
+         "checked in MCYuvPairing) and compares with the bytes returned by the real converter.", "5 C08",
+         "Trusted: TLC's evaluator; plane contents are seeded random bytes (arbitrary content has no structure to enumerate).",
+         "TLA+ spec (Yuv.tla) + TLC trace validation of recorded conversions over a dense size range"),
  "C09": ("TLC checks the Annex J kernel lemmas (range, direction and inversion symmetry, identities, change bounds) over "
          "27^4 stratified quadruples x 12 strengths and the edge-schedule lemmas for all sizes <= 48 on Deblock.tla, and "
-         "replays every recorded deblock() call as the two Annex J passes, comparing every output sample.", "5 C09"),
- "C16": ("Exhaustive over widths x heights (from 0 rows) x 12 strengths: every recorded call must return and equal "
-         "Deblock!DeblockImage as recomputed by TLC; the published strength table is compared with Table J.2 "
-         "transcribed in the specification.", "5 C16"),
+         "replays every recorded deblock() call as the two Annex J passes, comparing every output sample.", "5 C09",
+         "Trusted: TLC's evaluator. The 2^32 x 12 kernel domain is covered by stratified quadruples (10^4 quick / 16^4 thorough) placed in vector and scalar lanes, not exhaustively.",
+         "TLA+ spec (Deblock.tla) model-checked with TLC + staged trace validation (horizontal pass, vertical pass, compare)"),
+ "C10": ("The Annex A procedure (60,000 blocks, its own thresholds) is run through the real channel IDCT; TLC computes the "
+         "ideal transform of every block in two-limb fixed point, bounds the peak error per sample and accumulates the mean "
+         "and mean-square statistics, and a final TLC run evaluates the Annex A thresholds on the sums.", "5 C10",
+         "The double-precision reference of Annex A is replaced by the wide-integer ideal transform (error < 2^-10); the forward DCT that produces the test blocks runs in the driver (it only produces inputs).",
+         "TLA+ ideal IDCT (Recon.tla) as oracle; TLC trace validation; thresholds evaluated in TLA+"),
+ "C11": ("Exhaustive over 31 quantizers x all codable levels in every escape form (and all Table-16 short codes), at cycling "
+         "zig-zag positions, all INTRADC codes and all quantizer updates: each carried by a 16x16 picture that TLC encodes and "
+         "whose decoded samples TLC compares with the ideal transform of the specified coefficient; plus the inverse_rle hook "
+         "for exact coefficient values.", "5 C11",
+         "Trusted: TLC. A wrong coefficient must move some sample out of its allowed range; single coefficients are amplified by a fixed DC so that saturation and parity errors are visible.",
+         "TLA+ spec (Recon!Dequant, Picture.tla) + exhaustive TLC-encoded pictures, trace-validated"),
+ "C12": ("TLC checks the vector lemmas exhaustively on the spec (wrap lands in range and is congruent, inversion formulation "
+         "equals modular formulation, chroma rounding odd-symmetric) and validates the real mv_decode for all 64x64 pairs, "
+         "the real chroma rounding for all sums -128..124, predict_candidate for all neighbour configurations, and P "
+         "pictures whose vectors chain through every macroblock position.", "5 C12",
+         "Trusted: TLC; hook routes use re-exported internal functions under cfg(h263_rs_verif).",
+         "TLA+ spec (Recon.tla) model-checked + TLC validation of hook results and of decoded P pictures"),
+ "C13": ("For every picture size in a dense range and every quantizer, a TLC-encoded picture is decoded, each plane deblocked "
+         "with the tabulated strength and converted; TLC validates plane shapes (Pipeline lemma), absence of panics with "
+         "debug assertions enabled, output length, and for small sizes the full RGBA result = Yuv o Deblock o Recon.", "5 C13",
+         "Trusted: TLC; debug assertions of the converters are enabled in the harness build, so their documented preconditions are checked.",
+         "TLA+ specs composed (Picture, Deblock, Yuv) + TLC trace validation of the whole pipeline"),
  "C14": ("The reader is specified as a state machine (BitReader.tla); TLC explores exhaustively every op sequence of "
          "bounded length over all small sources (invariants InOrderOnce, BufferAccounting, ResultsAreFaithful, action "
          "property RollbackRestores), exports behaviours that are replayed into the real H263Reader, and validates the "
-         "recorded result and position probe of every operation of long random sequences against the same spec.", "5 C14"),
-}
-NOTE = {
- "C14": "Trusted: TLC; position is observed through a non-consuming peek probe after every operation; failed VLC reads are only generated where the documented 'position undefined' cannot matter (inside a transaction that then fails, or as the last operation).",
- "C09": "Trusted: TLC's evaluator. The 2^32 x 12 kernel domain is covered by stratified quadruples (10^4 quick / 16^4 thorough) placed in vector and scalar lanes, not exhaustively.",
- "C16": "Trusted: TLC's evaluator; bounded size range (24x24 quick, 48x48 thorough).",
- "C07": "Trusted: TLC's evaluator; the driver's packing of RGBA into one integer. Inputs are 4x1 pictures (vector body).",
- "C08": "Trusted: TLC's evaluator; plane contents are seeded random bytes (arbitrary content has no structure to enumerate).",
-}
-TECH = {
- "C07": "TLA+ spec (Yuv.tla) model-checked exhaustively with TLC + trace validation of recorded conversions",
- "C08": "TLA+ spec (Yuv.tla) + TLC trace validation of recorded conversions over a dense size range",
- "C09": "TLA+ spec (Deblock.tla) model-checked with TLC + staged trace validation (horizontal pass, vertical pass, compare)",
- "C16": "TLA+ spec (Deblock.tla) + exhaustive size x strength sweep validated by TLC",
- "C14": "TLA+ state machine (BitReader.tla) model-checked exhaustively with TLC; spec behaviours replayed into the code; recorded op sequences trace-validated by TLC",
+         "recorded result and position probe of every operation of long random sequences against the same spec.", "5 C14",
+         "Trusted: TLC; position is observed through a non-consuming peek probe after every operation; failed VLC reads are only generated where the documented 'position undefined' cannot matter.",
+         "TLA+ state machine (BitReader.tla) model-checked exhaustively with TLC; spec behaviours replayed into the code; recorded op sequences trace-validated by TLC"),
+ "C15": ("Sequences of TLC-encoded pictures are delivered in one reader (all bytes present before the first call) and one "
+         "reader per picture; TLC validates both runs against the same model states and checks after every call that the "
+         "reader probe equals the stream at the end of that picture's macroblock data.", "5 C15",
+         "Trusted: TLC; sequences up to 4 pictures exhaustively over type/size classes, longer ones sampled.",
+         "TLA+ decoder model with reader position + TLC trace validation of concatenated vs separate delivery"),
+ "C16": ("Exhaustive over widths x heights (from 0 rows) x 12 strengths: every recorded call must return and equal "
+         "Deblock!DeblockImage as recomputed by TLC; the published strength table is compared with Table J.2 "
+         "transcribed in the specification.", "5 C16",
+         "Trusted: TLC's evaluator; bounded size range (24x24 quick, 48x48 thorough).",
+         "TLA+ spec (Deblock.tla) + exhaustive size x strength sweep validated by TLC"),
+ "C17": ("Instances.tla: TLC checks Independence and Determinism over all interleavings of calls on 3 instances; every "
+         "interleaving is forced in the real code by a turnstile, and free-running threads and fresh processes decode the "
+         "same histories; each instance's trace is validated on its own against the decoder model and replicas must agree "
+         "byte for byte.", "5 C17",
+         "TLA+ models call-level interleavings; instruction-level races are excluded by construction (no unsafe, no static mut, decoders not shared) - stated assumption.",
+         "TLA+ multi-instance model checked with TLC; TLC-generated interleavings forced on real threads; per-instance trace validation"),
 }
 ALL = ["C%02d" % i for i in range(1, 18)]
 checks, na = [], []
 for pid in ALL:
-    if pid in props.PLANS and pid in LEVEL_TEXT:
+    if pid in props.PLANS:
+        text, ref, note, tech = T[pid]
         checks.append({
             "property_id": pid,
             "quick_cmd": "./check %s --tier quick" % pid,
@@ -49,24 +113,23 @@ for pid in ALL:
             "evidence_file": "/verif/evidence/%s.json" % pid,
             "replay_cmd_template": "./check %s --replay {path}" % pid,
             "engine": "tlc-trace-validation",
-            "level_claimed": {"category": "model_checking", "text": LEVEL_TEXT[pid][0],
-                              "design_ref": "DESIGN.md section " + LEVEL_TEXT[pid][1]},
-            "level_note": NOTE[pid],
-            "technique": TECH[pid],
+            "level_claimed": {"category": "model_checking", "text": text, "design_ref": "DESIGN.md section " + ref},
+            "level_note": note,
+            "technique": tech,
         })
     else:
-        na.append({"property_id": pid, "reason": "check under construction in this build round (specification module not yet bound to the code); see DESIGN.md section 5"})
+        na.append({"property_id": pid, "reason": "check under construction in this build round (specification written, binding to the code not yet registered); see DESIGN.md section 5"})
 m = {
  "version": 1,
  "setup_cmd": "cd /verif/harness && cargo build --release --offline && cd /verif && ./tools/selfcheck.sh",
- "hooks": {"guard": "--cfg h263_rs_verif", "enable": "RUSTFLAGS in /verif/harness/.cargo/config.toml: --cfg h263_rs_verif (path dependencies on /repo/{h263,yuv,deblock})",
+ "hooks": {"guard": "--cfg h263_rs_verif", "enable": "rustflags in /verif/harness/.cargo/config.toml: --cfg h263_rs_verif (path dependencies on /repo/{h263,yuv,deblock})",
            "baseline_off_cmd": "cd /repo && cargo test --workspace --no-fail-fast --offline",
            "source_commits": HOOK_COMMITS, "add_only": True},
  "engines": [{"name": "tlc-trace-validation", "path": "/verif/check", "serves_properties": [c["property_id"] for c in checks],
-              "kind_free_text": "explicit TLA+ specification (/verif/spec) model-checked with TLC; TLC-generated abstract inputs replayed into the real code by a Rust driver (/verif/harness); recorded executions validated against the specification by TLC"}],
+              "kind_free_text": "explicit TLA+ specification (/verif/spec) model-checked with TLC; TLC-generated abstract inputs and behaviours replayed into the real code by a Rust driver (/verif/harness); recorded executions validated against the specification by TLC"}],
  "checks": checks,
  "not_applicable": na,
- "notes": "All verdicts are taken by TLC against /verif/spec/*.tla; the Rust driver holds no expected values. Exit 2 = tool error.",
+ "notes": "All verdicts are taken by TLC against /verif/spec/*.tla; the Rust driver holds no expected values. Exit 2 = tool error. Fix commits in /repo are listed in known_findings.txt.",
 }
 json.dump(m, open(os.path.join(ROOT, "MANIFEST.json"), "w"), indent=1)
 print("checks:", [c["property_id"] for c in checks], "n/a:", [x["property_id"] for x in na])
